@@ -117,6 +117,10 @@ def run(ctx, rep):
                'rebuild is reachable only through "index file absent" or "legacy time index present" (%s)' % sorted(set(names)) if ok else
                'the index can be rebuilt (overwritten from the log) although the index file exists')
 
+    # ------------------------------------------------------------ R03.f offsets survive an index rebuild
+    from props.c01 import batch_forms
+    batch_forms(ctx, rep, 'R03.f')
+
     # ------------------------------------------------------------ R03.e cache warm-up honours the integrity check
     rep.rule('R03.e', 'cache warm-up pushes loaded messages only when the integrity check passed', floor=1, analysis='A3')
     name = 'server::streaming::topics::topic::Topic::load_messages_from_disk_to_cache'
